@@ -2,6 +2,7 @@ package main
 
 import (
 	"fmt"
+	"go/constant"
 	"go/token"
 	"go/types"
 	"sort"
@@ -71,8 +72,7 @@ func (e *enc) callCommon(b *ssa.BasicBlock, ins ssa.Instruction, cc *ssa.CallCom
 		}
 		havocRes()
 		e.callHook(ins, key, nil, R)
-		e.havocHeap(nil)
-		e.assumptions["interface method "+key+" has no contract: result unconstrained, heap havocked"] = true
+		e.havocByEffects(ins)
 		return
 	}
 	callee := cc.StaticCallee()
@@ -81,12 +81,29 @@ func (e *enc) callCommon(b *ssa.BasicBlock, ins ssa.Instruction, cc *ssa.CallCom
 		e.addI("safe", "nil-func", ins, R, fmt.Sprintf("(not (= %s 0))", fv))
 		havocRes()
 		e.callHook(ins, "", nil, R)
-		e.havocHeap(nil)
+		e.havocByEffects(ins)
 		return
 	}
 	key := funcKey(callee)
 	e.callOrd[key]++
+	e.siteAsserts(ins, fmt.Sprintf("call %d of %s", e.callOrd[key], key), callee.Signature, args, R)
+	e.ioCallCheck(ins, key, callee, R)
 	switch key {
+	case "fmt.Sprintf":
+		if t, ok := e.sprintfModel(cc); ok && res != nil {
+			e.define(res, t)
+			return
+		}
+	case "fmt.Sprint":
+		if vs, ok := e.varargValues(cc.Args[0]); ok && len(vs) == 1 && res != nil {
+			if mi, ok := vs[0].(*ssa.MakeInterface); ok && e.sortOf(mi.X.Type()) == "Str" && types.Identical(mi.X.Type(), types.Typ[types.String]) {
+				e.define(res, e.val(mi.X))
+				return
+			}
+			n := e.define(res, "(sprint "+e.val(vs[0])+")")
+			e.assume(fmt.Sprintf("(=> (is-IStr %s) (= %s (istr %s)))", e.val(vs[0]), n, e.val(vs[0])))
+			return
+		}
 	case "errorutil.AssertTrue":
 		e.addI("safe", "assert", ins, R, args[0])
 		e.assumeAt(R, args[0])
@@ -109,30 +126,38 @@ func (e *enc) callCommon(b *ssa.BasicBlock, ins ssa.Instruction, cc *ssa.CallCom
 		e.applyContractFn(ins, fc, key, callee, recv, recvT, a, av, res, R)
 		return
 	}
-	n := havocRes()
+	havocRes()
 	e.callHook(ins, key, callee, R)
-	pkgPath := ""
-	if callee.Pkg != nil {
-		pkgPath = callee.Pkg.Pkg.Path()
-	} else if callee.Object() != nil && callee.Object().Pkg() != nil {
-		pkgPath = callee.Object().Pkg().Path()
+	e.havocByEffects(ins)
+	if !(callee.Pkg != nil && e.w.InRepo[callee.Pkg]) {
+		e.assumptions["library call "+key+": result unconstrained; effects on repo objects only through pointer/interface/function arguments"] = true
 	}
-	inRepo := callee.Pkg != nil && e.w.InRepo[callee.Pkg]
-	hasFuncArg := false
-	for _, a := range cc.Args {
-		if _, ok := a.Type().Underlying().(*types.Signature); ok {
-			hasFuncArg = true
-		}
-	}
-	if inRepo || !purePkgs[pkgPath] || hasFuncArg {
+}
+
+// havocByEffects havocs exactly the arrays the call may write according to the whole-program
+// mod analysis (modref.go).
+func (e *enc) havocByEffects(ins ssa.Instruction) {
+	ci, ok := ins.(ssa.CallInstruction)
+	if !ok {
 		e.havocHeap(nil)
-		if !inRepo {
-			e.assumptions["library call "+key+": unmodelled, heap havocked"] = true
-		}
-	} else {
-		e.assumptions["library call "+key+": result unconstrained, repo heap untouched"] = true
+		return
 	}
-	_ = n
+	e.w.immutableArr("")
+	mi := e.w.Mod
+	eff := map[string]bool{}
+	callees := map[*ssa.Function]bool{}
+	mi.callEffects(e.f, ci, func(a string) { eff[a] = true }, callees)
+	for c := range callees {
+		t, ok := mi.modOf(c)
+		if !ok {
+			e.havocHeap(nil)
+			return
+		}
+		for a := range t {
+			eff[a] = true
+		}
+	}
+	e.havocHeap(func(a string) bool { return !eff[a] })
 }
 
 func (e *enc) ifaceKey(cc *ssa.CallCommon) string {
@@ -335,7 +360,7 @@ func (e *enc) applyContract(ins ssa.Instruction, fc *FuncContract, key string, s
 	}
 	e.callHook(ins, key, nil, R)
 	// frame
-	e.havocPerAssigns(fc, env)
+	e.havocPerAssigns(ins, fc, env)
 	var n string
 	if res != nil {
 		n = e.havoc(res)
@@ -384,9 +409,9 @@ func mentionsResult(ex CExpr) bool {
 }
 
 // havocPerAssigns applies the frame of a contract: unspecified = everything.
-func (e *enc) havocPerAssigns(fc *FuncContract, env *cenv) {
+func (e *enc) havocPerAssigns(ins ssa.Instruction, fc *FuncContract, env *cenv) {
 	if !fc.HasAssigns {
-		e.havocHeap(nil)
+		e.havocByEffects(ins)
 		return
 	}
 	var pats []string
@@ -569,4 +594,216 @@ func (e *enc) inAnyLoop(b *ssa.BasicBlock) (*ssa.BasicBlock, bool) {
 		}
 	}
 	return nil, false
+}
+
+// varargValues recovers the values stored into a freshly built variadic argument slice.
+func (e *enc) varargValues(v ssa.Value) ([]ssa.Value, bool) {
+	if c, ok := v.(*ssa.Const); ok && c.Value == nil {
+		return nil, true
+	}
+	sl, ok := v.(*ssa.Slice)
+	if !ok {
+		return nil, false
+	}
+	al, ok := sl.X.(*ssa.Alloc)
+	if !ok {
+		return nil, false
+	}
+	at, ok := al.Type().Underlying().(*types.Pointer).Elem().Underlying().(*types.Array)
+	if !ok {
+		return nil, false
+	}
+	vals := make([]ssa.Value, at.Len())
+	for _, r := range *al.Referrers() {
+		ia, ok := r.(*ssa.IndexAddr)
+		if !ok {
+			continue
+		}
+		c, ok := ia.Index.(*ssa.Const)
+		if !ok {
+			return nil, false
+		}
+		for _, rr := range *ia.Referrers() {
+			if st, ok := rr.(*ssa.Store); ok && st.Addr == ia {
+				vals[int(c.Int64())] = st.Val
+			}
+		}
+	}
+	for _, x := range vals {
+		if x == nil {
+			return nil, false
+		}
+	}
+	return vals, true
+}
+
+// sprintfModel: fmt.Sprintf with a constant format made of text, %v/%s verbs and string operands
+// is the concatenation of the pieces.
+func (e *enc) sprintfModel(cc *ssa.CallCommon) (string, bool) {
+	fc, ok := cc.Args[0].(*ssa.Const)
+	if !ok || fc.Value == nil {
+		return "", false
+	}
+	format := constantString(fc)
+	vals, ok := e.varargValues(cc.Args[1])
+	if !ok {
+		return "", false
+	}
+	var parts []string
+	cur := ""
+	k := 0
+	for i := 0; i < len(format); i++ {
+		if format[i] != '%' {
+			cur += string(format[i])
+			continue
+		}
+		if i+1 >= len(format) {
+			return "", false
+		}
+		i++
+		switch format[i] {
+		case '%':
+			cur += "%"
+		case 'v', 's':
+			if k >= len(vals) {
+				return "", false
+			}
+			mi, ok := vals[k].(*ssa.MakeInterface)
+			if !ok || !types.Identical(mi.X.Type(), types.Typ[types.String]) {
+				return "", false
+			}
+			k++
+			if cur != "" {
+				parts = append(parts, e.strLit(cur))
+				cur = ""
+			}
+			parts = append(parts, e.val(mi.X))
+		default:
+			return "", false
+		}
+	}
+	if k != len(vals) {
+		return "", false
+	}
+	if cur != "" {
+		parts = append(parts, e.strLit(cur))
+	}
+	if len(parts) == 0 {
+		return e.strLit(""), true
+	}
+	t := parts[0]
+	for _, p := range parts[1:] {
+		if e.strTheory {
+			t = fmt.Sprintf("(str.++ %s %s)", t, p)
+		} else {
+			t = fmt.Sprintf("(sconcat %s %s)", t, p)
+		}
+	}
+	return t, true
+}
+
+func constantString(c *ssa.Const) string {
+	return constant.StringVal(c.Value)
+}
+
+// siteAsserts emits the contract's "assert at <site>: e" clauses for this site. Callee parameters
+// are visible under their names and as arg0, arg1, ...
+func (e *enc) siteAsserts(ins ssa.Instruction, site string, sig *types.Signature, args []string, R string) {
+	if e.fc == nil {
+		return
+	}
+	for _, sc := range e.fc.Asserts {
+		if sc.Site != site {
+			continue
+		}
+		e.usedSites[site] = true
+		env := e.siteEnv(ins)
+		if sig != nil {
+			off := 0
+			if sig.Recv() != nil {
+				off = 1
+			}
+			for i := 0; i < sig.Params().Len() && i+off < len(args); i++ {
+				p := sig.Params().At(i)
+				cv := cval{args[i+off], e.sortOf(p.Type()), p.Type()}
+				env.vars[fmt.Sprintf("arg%d", i)] = cv
+			}
+		}
+		t, err := env.boolTerm(sc.Expr)
+		if err != nil {
+			e.contractError(sc.Clause, err)
+			continue
+		}
+		if sc.Kind == "assume" {
+			e.assumeAt(R, t)
+			e.assumptions[fmt.Sprintf("assume %s in %s", sc.Label, e.key)] = true
+			continue
+		}
+		e.addI("assert", sc.Label, ins, R, t)
+	}
+}
+
+// siteEnv: names are resolved to the values they hold just before ins.
+func (e *enc) siteEnv(ins ssa.Instruction) *cenv {
+	env := e.newEnv()
+	env.st = e.heap
+	env.old = e.entry
+	b := ins.Block()
+	idx := len(b.Instrs)
+	for i, x := range b.Instrs {
+		if x == ins {
+			idx = i
+		}
+	}
+	env.lookup = func(name string) (cval, bool) {
+		v, isAddr, ok := e.resolveLocalBefore(name, b, idx)
+		if !ok {
+			return cval{}, false
+		}
+		if isAddr {
+			e.val(v)
+			l, ok := e.locs[v]
+			if !ok || l.kind == "struct" {
+				return cval{}, false
+			}
+			return cval{e.loadIn(l, env.st), l.sort, l.t}, true
+		}
+		return cval{e.val(v), e.sortOf(v.Type()), v.Type()}, true
+	}
+	for _, p := range e.f.Params {
+		env.vars["old_"+p.Name()] = cval{e.val(p), e.sortOf(p.Type()), p.Type()}
+	}
+	return env
+}
+
+var ioPkgs = map[string]bool{"os": true, "io/ioutil": true, "io": true, "bufio": true, "net": true, "os/exec": true, "syscall": true, "net/http": true, "plugin": true}
+
+// ioCallCheck: a function with "opt io-calls a,b" may call, among the functions of the
+// file/network packages, only the listed ones.
+func (e *enc) ioCallCheck(ins ssa.Instruction, key string, callee *ssa.Function, R string) {
+	if e.fc == nil {
+		return
+	}
+	allowed, ok := e.fc.Opts["io-calls"]
+	if !ok {
+		return
+	}
+	pkgPath := ""
+	if callee.Pkg != nil {
+		pkgPath = callee.Pkg.Pkg.Path()
+	} else if callee.Object() != nil && callee.Object().Pkg() != nil {
+		pkgPath = callee.Object().Pkg().Path()
+	}
+	if !ioPkgs[pkgPath] {
+		return
+	}
+	for _, a := range strings.Split(allowed, ",") {
+		if strings.TrimSpace(a) == key {
+			o := e.addI("frame", "io:"+key, ins, R, "true")
+			o.Struct = true
+			return
+		}
+	}
+	o := e.addI("frame", "io:"+key, ins, R, "false")
+	o.Note = "call of a file/network function that the contract does not allow"
 }
